@@ -13,6 +13,9 @@ const SNAPSHOT: &str = include_str!("../data/jet_sigs.txt");
 pub struct JetSig {
     pub params: Vec<Ty>,
     pub ret: Ty,
+    /// the documented spelling (builtin aliases unresolved)
+    pub params_doc: Vec<Ty>,
+    pub ret_doc: Ty,
 }
 
 fn table() -> &'static HashMap<String, JetSig> {
@@ -25,14 +28,20 @@ fn table() -> &'static HashMap<String, JetSig> {
                 continue;
             }
             let parts: Vec<&str> = line.split('|').collect();
-            assert_eq!(parts.len(), 3, "bad snapshot line {line}");
+            assert!(parts.len() == 3 || parts.len() == 5, "bad snapshot line {line}");
             let params: Vec<Ty> = if parts[1].is_empty() {
                 vec![]
             } else {
                 parts[1].split('&').map(|t| resolve(&parse_ty(t).expect("snapshot type"), &no_alias).expect("resolve")).collect()
             };
             let ret = resolve(&parse_ty(parts[2]).expect("snapshot type"), &no_alias).expect("resolve");
-            m.insert(parts[0].to_string(), JetSig { params, ret });
+            let (params_doc, ret_doc) = if parts.len() == 5 {
+                let pd: Vec<Ty> = if parts[3].is_empty() { vec![] } else { parts[3].split('&').map(|t| parse_ty(t).expect("snapshot type")).collect() };
+                (pd, parse_ty(parts[4]).expect("snapshot type"))
+            } else {
+                (params.clone(), ret.clone())
+            };
+            m.insert(parts[0].to_string(), JetSig { params, ret, params_doc, ret_doc });
         }
         m
     })
@@ -42,6 +51,11 @@ pub fn all_names() -> Vec<String> {
     let mut v: Vec<String> = table().keys().cloned().collect();
     v.sort();
     v
+}
+
+/// The signature as documented (with builtin alias names).
+pub fn signature_doc(name: &str) -> Option<(Vec<Ty>, Ty)> {
+    table().get(name).map(|s| (s.params_doc.clone(), s.ret_doc.clone()))
 }
 
 pub fn signature(name: &str) -> Option<(Vec<Ty>, Ty)> {
